@@ -56,10 +56,33 @@ def _extract():
             for n, s in zip(('HDR_STATUS', 'HDR_CTYPE', 'HDR_CLEN'), strs):
                 body.append('  { const char *q = "%s"; fprintf(stdout, "S %s"); for (; *q; q++) fprintf(stdout, " %%u", (unsigned)(unsigned char)*q); fprintf(stdout, "\\n"); }\n' % (s, n))
         m = re.search(r'pos\s*\+=\s*(\d+)\s*;', r)
-        if m: body.append('  fprintf(stdout, "I CLEN_SKIP %d\\n");\n' % int(m.group(1)))
+        if m:
+            body.append('  fprintf(stdout, "I CLEN_SKIP %d\\n");\n' % int(m.group(1)))
+            if len(strs) == 3 and int(m.group(1)) != len(strs[2].encode('latin-1').decode('unicode_escape')):
+                errs.append('`pos+=%s` does not skip exactly the matched "%s"' % (m.group(1), strs[2]))
         else: errs.append('`pos+=N` after the Content-Length match not found')
+        if not re.search(r'if\s*\(\s*update->expected_file_size\s*>\s*0\s*\)', r): errs.append('`expected_file_size > 0` test changed')
+        if not re.search(r'update->http_header_data_len\s*>\s*3\s*&&', r): errs.append('header end test `http_header_data_len > 3` changed')
+        if not re.search(r"\[update->http_header_data_len-1\]\s*==\s*'\\n'\s*&&\s*update->http_header_data\[update->http_header_data_len-2\]\s*==\s*'\\r'\s*&&\s*update->http_header_data\[update->http_header_data_len-3\]\s*==\s*'\\n'\s*&&\s*update->http_header_data\[update->http_header_data_len-4\]\s*==\s*'\\r'", r): errs.append('CRLFCRLF test changed')
         if not re.search(r'http_header_data_len\s*>=\s*MAX_HTTP_HEADER_SIZE\s*-\s*1', r): errs.append('header length guard `>= MAX_HTTP_HEADER_SIZE-1` changed')
         if not re.search(r"expected_file_size\s*<<\s*3\s*\)\s*\+\s*\(\s*update->expected_file_size\s*<<\s*1\s*\)\s*\+\s*update->http_header_data\[a\]\s*-\s*'0'", r): errs.append('decimal accumulation of Content-Length changed')
+    # --- download / flash_write / disconnect shapes the model transcribes
+    d = _func(src_nc, 'supal_esp_update_download'); fw = _func(src_nc, 'supla_esp_update_flash_write'); dc = _func(src_nc, 'supla_esp_update_disconnect_cb')
+    if not d: errs.append('supal_esp_update_download not found')
+    else:
+        for pat, what in ((r'if\s*\(\s*len\s*\+\s*update->buff_pos\s*>\s*SPI_FLASH_SEC_SIZE\s*\)\s*len\s*=\s*SPI_FLASH_SEC_SIZE\s*-\s*update->buff_pos\s*;', 'chunk split at the sector size'),
+                          (r'if\s*\(\s*update->buff_pos\s*==\s*SPI_FLASH_SEC_SIZE\s*\)\s*\{\s*if\s*\(\s*supla_esp_update_flash_write\(\)\s*==\s*0\s*\)\s*return\s*;\s*\}\s*update->downloaded_data_size\s*\+=\s*len\s*;', 'flush of a full sector before `downloaded_data_size += len`'),
+                          (r'if\s*\(\s*update->buff_pos\s*>\s*0\s*&&\s*update->downloaded_data_size\s*==\s*update->expected_file_size\s*\)', 'final flush condition'),
+                          (r'while\s*\(\s*content_len\s*>\s*0\s*\)', 'download loop condition')):
+            if not re.search(pat, d): errs.append('download: %s changed' % what)
+    if not fw: errs.append('supla_esp_update_flash_write not found')
+    else:
+        for pat, what in ((r'uint32\s+sector\s*=\s*update->flash_awo\s*/\s*SPI_FLASH_SEC_SIZE\s*;', 'sector = flash_awo / SPI_FLASH_SEC_SIZE'),
+                          (r'for\s*\(\s*a\s*=\s*0\s*;\s*a\s*<\s*MAX_FLASH_ATTEMPTS\s*;\s*a\+\+\s*\)\s*if\s*\(\s*SPI_FLASH_RESULT_OK\s*==\s*spi_flash_erase_sector\(sector\)\s*&&\s*SPI_FLASH_RESULT_OK\s*==\s*spi_flash_write\(update->flash_awo\s*,\s*\(uint32_t\s*\*\)update->buff\s*,\s*update->buff_pos\)\s*\)\s*break\s*;', 'attempt loop (erase then write, a < MAX_FLASH_ATTEMPTS)'),
+                          (r'if\s*\(\s*a\s*>=\s*MAX_FLASH_ATTEMPTS\s*\)', 'exhausted-attempts test'),
+                          (r'update->flash_awo\s*\+=\s*update->buff_pos\s*;\s*update->buff_pos\s*=\s*0\s*;', 'flash_awo += buff_pos; buff_pos = 0')):
+            if not re.search(pat, fw): errs.append('flash_write: %s changed' % what)
+    if not dc: errs.append('supla_esp_update_disconnect_cb not found')
     # --- footer / signature layout in verify_and_reboot
     v = _func(src_nc, 'supla_esp_update_verify_and_reboot')
     if not v: errs.append('supla_esp_update_verify_and_reboot not found')
@@ -73,7 +96,10 @@ def _extract():
         if not re.search(r'key_bytes\s*=\s*\(\s*footer\[6\]\s*<<\s*8\s*\)\s*-\s*footer\[7\]', v): errs.append('key_bytes formula changed')
         if not re.search(r'if\s*\(\s*key_bytes\s*==\s*RSA_NUM_BYTES\s*\)', v): errs.append('key_bytes == RSA_NUM_BYTES test changed')
         if not re.search(r'downloaded_data_size\s*>\s*16\s*\+\s*RSA_NUM_BYTES', v): errs.append('minimal size test changed')
-        if not re.search(r'int\s+bytes_left\s*=\s*update->flash_awo\s*-\s*update->flash_addr\s*-\s*16\s*-\s*key_bytes', v): errs.append('bytes_left formula changed')
+        if not re.search(r'int\s+bytes_left\s*=\s*update->flash_awo\s*-\s*update->flash_addr\s*-\s*16\s*-\s*key_bytes\s*;\s*update->flash_awo\s*=\s*update->flash_addr\s*;', v): errs.append('bytes_left formula / rewind of flash_awo changed')
+        if not re.search(r'spi_flash_read\(update->flash_awo\s*-\s*16\s*,\s*\(uint32_t\s*\*\)footer\s*,\s*16\)', v): errs.append('footer read changed')
+        if not re.search(r'spi_flash_read\(update->flash_awo\s*,\s*\(uint32_t\s*\*\)update->buff\s*,\s*RSA_NUM_BYTES\)', v): errs.append('signature read changed')
+        if not re.search(r'nettle_mpz_set_str_256_u\(public_key\.n\s*,\s*RSA_NUM_BYTES\s*,\s*rsa_public_key_bytes\)\s*;\s*mpz_set_ui\(public_key\.e\s*,\s*RSA_PUBLIC_EXPONENT\)', v): errs.append('public key set-up changed')
     return errs, ''.join(body)
 
 _errs, _body = _extract()
